@@ -401,9 +401,11 @@ def main():
                               "message": "theorem(s) no longer check against the model regenerated from /repo"},
                bool(pred_failures), "")
 
-    for k in {json.dumps(k, sort_keys=True) for k in known_hits}:
-        kk = json.loads(k)
-        print("KNOWN-FINDING: property=%s %s" % (pid, kk.get("what", "")))
+    hit_ids = {k.get("id") for k in known_hits}
+    for kk in known:
+        if kk.get("status") == "known" and kk.get("property") == pid:
+            print("KNOWN-FINDING: property=%s %s%s" % (pid, kk.get("what", ""),
+                  "" if kk.get("id") in hit_ids else " (listed; not exercised by this run's seed)"))
 
     wall = time.time() - t0
     # 7. evidence
